@@ -231,4 +231,22 @@ theorem C02_quantvals_unique (entries : Int) (dim : Nat) (hd : 1 ≤ dim) (r1 r2
     r1 = r2 :=
   Vorbis.Proofs.Lookup1.search_unique entries dim hd r1 r2 h1 h2 a1 b1 a2 b2
 
+open Vorbis.CSem Vorbis.Generated.Funcs Vorbis.Proofs.Funcs in
+/-- **C02_render_point_between** — floor 1's predictor (lib/floor1.c `render_point`, regenerated from the source): for `x0 < x1` and
+`x0 ≤ x ≤ x1` (the two neighbours of a post always enclose it) the function returns, and the value it predicts lies between the two
+flag-masked end values — so `floor1_inverse1`'s `room` arithmetic starts from a value inside `[0, 2^15)` and its division by `adx > 0`
+never divides by zero. -/
+theorem C02_render_point_between (x0 x1 y0 y1 x : Int) (fuel : Nat) (hx : x0 < x1) (h0 : x0 ≤ x) (h1 : x ≤ x1) :
+    ∃ r s', render_point.run x0 x1 y0 y1 x fuel = .ret r s' ∧
+      ((land y0 32767 ≤ r ∧ r ≤ land y1 32767) ∨ (land y1 32767 ≤ r ∧ r ≤ land y0 32767)) :=
+  RP.run_between x0 x1 y0 y1 x fuel hx h0 h1
+
+open Vorbis.CSem in
+/-- **C02_icount_is_the_source** — `icount` as it stands in lib/res0.c (the number of books a residue stage word announces: it sizes the
+loop that reads `booklist[]`) equals the model's bit count for every stage word the parser can produce (`0 ≤ s < 256`, ResidueWF.st);
+the whole table is evaluated by the kernel (`decide +kernel`, no axiom beyond the three). -/
+theorem C02_icount_is_the_source : ∀ v : Fin 256,
+    (Vorbis.Generated.Funcs.icount.run (v.val : Int) 10).val? = some ((Vorbis.Setup.icount v.val : Nat) : Int) := by
+  decide +kernel
+
 end Vorbis.Props.C02
